@@ -32,7 +32,7 @@ def is_header_map_call(t):
 def r1(ctx):
     b = ctx.fn(CR)
     sh = param_by_name(b, "signed_headers")
-    reads = [(bi, t) for bi, t in b.calls() if is_header_map_call(t) and t["args"] and b.slice_op(t["args"][0]).has_field("headers")]
+    reads = [(bi, t) for bi, t in b.calls() if is_header_map_call(t) and t["args"] and b.slice_op(t["args"][0]).reads_field("headers")]
     ctx.count(len(reads))
     bad = False
     for bi, t in reads:
@@ -96,7 +96,8 @@ def r3(ctx):
     else:
         yield PASS("C11-R3", "normalize_headers/value", "entry(key).or_default().push(normalize_header_value(value.as_bytes()))", [site(b, p[0], "push")])
     # every header is stored: push post-dominates the iteration's Some edge; iteration is over the whole HeaderMap
-    it = one(b.calls(r"HeaderMap::<T>::iter$"), "headers.iter()")
+    its = b.calls(r"HeaderMap::<T>::iter$") + [x for x in b.calls(r"IntoIterator::into_iter$") if re.match(r"^<&http::HeaderMap(<[^>]*>)? as std::iter::IntoIterator>::into_iter$", x[1].get("resolved_full", ""))]
+    it = one(its, "headers.iter()")  # `headers.iter()` or `for .. in headers` on the &HeaderMap: the same iteration
     nx = [x for x in b.calls(r"Iterator::next$")]
     st = b.term(nx[0][1]["target"]) if nx else None
     some = [bb for v, bb in st["targets"] if v == 1] if st and st["k"] == "switch" else []
@@ -191,8 +192,17 @@ def r5(ctx):
         ok = False
         yield VIOL("C11-R5", "normalize_header_value/acc-init", "the result vector does not start empty (Vec::new / with_capacity)", where=loc(b.j["span"]))
     loop = microeval.byte_filter_loop(b, acc)
-    state, table = microeval.tabulate(b, acc, loop)
-    ctx.extra["nhv_transducer"] = {"state_locals": len(state), "entries": len(table)}
+    tail = False
+    try:
+        state, table = microeval.tabulate(b, acc, loop)
+    except AnchorMissing as e_:
+        if "reads the accumulator" not in str(e_):
+            raise
+        # the decision is derived from the output so far (`result.last()`) instead of a flag: the last output byte
+        # becomes part of the tabulated state
+        state, table = microeval.tabulate_with_tail(b, acc, loop)
+        tail = True
+    ctx.extra["nhv_transducer"] = {"state_locals": len(state), "entries": len(table), "reads_output_tail": tail}
     # initial values of the state locals: one constant definition outside the loop
     init_state = []
     for l in state:
@@ -204,14 +214,18 @@ def r5(ctx):
             raise AnchorMissing("constant initial value of loop-carried local _%d in normalize_header_value" % l)
         init_state.append(bool(cv))
     # product exploration: (spec state, implementation state, tail class of the output so far)
-    start = (True, tuple(init_state), "empty")
+    start = (True, (tuple(init_state), None) if tail else tuple(init_state), "empty")
     seen = {start}
     work = [start]
     witness = None
     while work and witness is None:
         S, I, cls = work.pop()
         for byte in range(256):
-            ev, I2 = table[(byte, I)]
+            if tail:
+                ev, F2, L2 = table[(byte, I[0], I[1])]
+                I2 = (F2, L2)
+            else:
+                ev, I2 = table[(byte, I)]
             want = (() if S else (32,)) if byte == 32 else (byte,)
             S2 = byte == 32
             if ev != want:
@@ -235,12 +249,16 @@ def r5(ctx):
         rets = set(b.return_blocks())
         reps = {"empty": [[]], "byte": [[65], [65, 32, 66]], "space": [[65, 32], [32, 65, 32]]}
         bad = None
-        for S, I, cls in sorted(seen):
+        for S, I, cls in sorted(seen, key=repr):
             if S != (cls in ("empty", "space")):
                 continue
-            for rep in reps[cls]:
+            reps_ = reps[cls]
+            if tail:
+                last_ = I[1]
+                reps_ = [[]] if last_ is None else ([[last_], [65, 32, last_]] if last_ != 32 else [[65, 32], [32, 65, 32]])
+            for rep in reps_:
                 accv = list(rep)
-                env = {l: v for l, v in zip(state, I)}
+                env = {l: v for l, v in zip(state, I[0] if tail else I)}
                 env[loop["n_local"]] = ("opt", None)
                 try:
                     m.run(loop["none"], env, accv, rets)
